@@ -39,7 +39,13 @@ type Degree struct {
 }
 
 func (d Degree) String() string {
-	return fmt.Sprintf("%s%d", d.Name.Coerce(), d.Value)
+	c := d.Name.Coerce()
+	if c == UnknownCoerceDegreeName {
+		// an invalid degree (e.g. the zero value of a chord written without one) still has to be
+		// printable in the message that refuses it
+		return fmt.Sprintf("InvalidDegree(%d)", d.Value)
+	}
+	return fmt.Sprintf("%s%d", c, d.Value)
 }
 
 func (d Degree) MarshalYAML() (any, error) {
